@@ -230,7 +230,7 @@ const nonNilKeyword = "nonnil"
 var annotationKeyword = fmt.Sprintf("(%s|%s)", nilableKeyword, nonNilKeyword)
 
 const sep = ","
-const identRegexStr = "[a-zA-Z][a-zA-Z0-9]*"
+const identRegexStr = "[a-zA-Z_][a-zA-Z0-9_]*"
 
 const paramTemplateStr = "param %s"
 
